@@ -48,7 +48,7 @@ def _symbols():
 
 
 REQUIRED_CLASSES = {
-    "quick": ["tlm:value", "tlm:both-refuse", "limit:0Hz-finite", "limit:inf-finite", "circuit:container"],
+    "quick": ["clamped-then-exported-again", "tlm:value", "tlm:both-refuse", "limit:0Hz-finite", "limit:inf-finite", "circuit:container"],
     "thorough": ["tlm:value", "tlm:both-refuse", "limit:0Hz-finite", "limit:inf-finite", "circuit:container"],
 }
 
@@ -80,7 +80,7 @@ def element_case(draw):
     if mode == 0:
         k = draw(st.sampled_from(sorted(info)))
         params[k] = draw(G.value_strategy(info[k], wide=False))
-    return {"sym": sym, "params": params, "f": draw(_freqs(6)) + [1e9, 1e-6]}
+    return {"sym": sym, "params": params, "f": draw(_freqs(6)) + [1e9, 1e-6], "clamp": draw(st.booleans())}
 
 
 @st.composite
@@ -93,7 +93,16 @@ def circuit_case(draw):
 
 @st.composite
 def _small_sub(draw):
-    return draw(G.st_tree(["R", "C", "Q", "R"], max_leaves=2, state="values", canonical=True))
+    t = draw(G.st_tree(["R", "C", "Q", "R"], max_leaves=2, state="values", canonical=True))
+    if draw(st.integers(0, 2)):
+        # moderate values (within two decades of the defaults) so that cosh/sinh of L/lambda stay finite
+        for e in G.ast_elements(t):
+            info = G.class_info(G.element_classes()[e[1]])
+            for k, pv in e[2].items():
+                d = info[k]["v"]
+                if k != "n" and "v" in pv and not (d * 1e-2 <= pv["v"] <= d * 1e2):
+                    pv["v"] = d * 10.0 ** draw(st.floats(-2, 2))
+    return t
 
 
 def _tlm_case_strategy(cfg):
@@ -224,7 +233,25 @@ def body_element(ctx, case):
         ref2 = None
     if ref2 is not None:
         _compare(ctx, case, "numeric-equals-to_sympy", Z, ref2, TOL, case["sym"] + " to_sympy(substitute=True)", slack)
-    ctx.record(case, True, ["el:" + case["sym"], "nt:" + case["sym"]])
+    labels = ["el:" + case["sym"], "nt:" + case["sym"]]
+    # history: a limit moved past the current value clamps the value; every representation must follow
+    k = sorted(case["params"])[0]
+    v = case["params"][k]
+    if case.get("clamp") and math.isfinite(v) and v > 0 and el.get_lower_limit(k) < 0.5 * v:
+        el.set_upper_limits(k, 0.5 * v)
+        p2 = el.get_values()
+        Z2, why2 = _lib_Z(el, case["f"])
+        if Z2 is not None:
+            try:
+                ref_eq = M.eval_equation(cls._equation, p2, case["f"])
+                ref_sy = M.eval_expr(el.to_sympy(substitute=True), case["f"])
+                slack2 = _slack_equation(cls._equation, p2, case["f"], ref_eq)
+                _compare(ctx, case, "numeric-equals-documented-equation", Z2, ref_eq, TOL, case["sym"] + " after a clamping limit", slack2)
+                _compare(ctx, case, "numeric-equals-to_sympy", Z2, ref_sy, TOL, case["sym"] + " to_sympy(substitute=True) after a clamping limit", slack2)
+                labels.append("clamped-then-exported-again")
+            except M.RefNotFinite:
+                pass
+    ctx.record(case, True, labels)
 
 
 def body_circuit(ctx, case):
@@ -304,7 +331,7 @@ def tlm_enum(ctx):
 
     from hypothesis import find  # noqa: F401  (strategies are drawn with .example-free explicit seeds below)
 
-    reps = ctx.q(2, 10)
+    reps = ctx.q(6, 20)
     for ci, cfg in enumerate(TLM_CONFIGS):
         for r in range(reps):
             yield {"cfg_index": ci, "rep": r}
